@@ -303,15 +303,103 @@ def foreach_clause(ck, r, tier):
                              f"outcome is {overall}: the items' outcomes were not combined to the most severe one")
 
 
+def foreach_items_clause(ck, r, tier):
+    """Aggregation of the iterations of a forEach step: each item decides its own outcome (a ValueFunction
+    whose preconditions turn the item into Ok / Skip / Retry(delay, message) / PermFail(message)); the
+    step's — and, with one step, the Workflow's — outcome must be the combination of the items' outcomes:
+    most severe class, longest delay among the Retry items, every message of the winning class, and the
+    same class/delay for the items in any order."""
+    import celpy
+    import koreo_util as ku
+    from cluster import Cluster
+    from koreo.workflow.reconcile import reconcile_workflow
+
+    delays = [5, 15, 30, 45, 180, 600]
+    vf = {
+        "preconditions": [   # the schema wants a literal integer delay: one assertion per delay value
+            {"assert": f"=!(inputs.item.kind == 'retry' && inputs.item.delay == {d})",
+             "retry": {"message": "=inputs.item.msg", "delay": d}} for d in delays
+        ] + [
+            {"assert": "=inputs.item.kind != 'perm'", "permFail": {"message": "=inputs.item.msg"}},
+            {"assert": "=inputs.item.kind != 'skip'", "skip": {"message": "=inputs.item.msg"}},
+        ],
+        "return": {"seen": "=inputs.item.msg"},
+    }
+
+    def gen_items():
+        k = r.randint(2, 6)
+        items = []
+        for i in range(k):
+            kind = r.choice(["ok", "ok", "skip", "retry", "retry", "retry", "perm", "perm"])
+            items.append({"kind": kind, "msg": f"m{i}-{kind}", "delay": r.choice(delays)})
+        if r.random() < 0.5:     # same class several times: what "lossless" and "longest delay" are about
+            top = r.choice(["retry", "perm"])
+            for it in r.sample(items, min(len(items), r.randint(2, 3))):
+                it["kind"] = top
+                it["msg"] = it["msg"].split("-")[0] + "-" + top
+            if top == "retry":
+                items = [it for it in items if it["kind"] != "perm"]
+        return items
+
+    async def one_pass(items):
+        ku.reset()
+        await ku.offer_value_function("per-item", vf)
+        wf = await ku.offer_workflow("agg-items", {"steps": [
+            {"label": "fan", "ref": {"kind": "ValueFunction", "name": "per-item"},
+             "forEach": {"itemIn": "=" + json.dumps(items), "inputKey": "item"}}]})
+        res = await reconcile_workflow(api=Cluster(), workflow_key="agg-items", owner=("ns", dict(ku.OWNER_REF)),
+                                       trigger=celpy.json_to_cel({}), workflow=wf)
+        return ku.outcome_obs(res.result)
+
+    n = 40 if tier == "quick" else 800
+    rank = {"ok": 2, "skip": 1, "depSkip": 0, "retry": 3, "perm": 4}
+    cls_name = {"perm": "permFail"}
+    for _ in range(n):
+        items = gen_items()
+        if len(items) < 2:
+            continue
+        shuffled = list(items)
+        r.shuffle(shuffled)
+        try:
+            got = ku.run(one_pass(items))
+            got_p = ku.run(one_pass(shuffled))
+        except BaseException as e:   # escaping exceptions are C09's subject
+            ck.count("foreach-items:raised")
+            continue
+        ck.evaluated()
+        ck.count("foreach-items-pass")
+        top = max(items, key=lambda it: rank[it["kind"]])["kind"]
+        winners = [it for it in items if it["kind"] == top]
+        if len(winners) > 1 or len({it["kind"] for it in items}) > 1:
+            ck.nontriv(json.dumps(["foreach-items", items], sort_keys=True))
+        want = cls_name.get(top, top)
+        case = {"items": items, "workflow_outcome": got, "workflow_outcome_items_shuffled": got_p}
+        bad = None
+        if got["c"] != want:
+            bad = f"the most severe item outcome is {want} but the forEach step / Workflow reports {got['c']}"
+        elif top == "retry" and got.get("delay") != max(it["delay"] for it in winners):
+            bad = (f"Retry delay {got.get('delay')} is not the longest delay among the waiting items "
+                   f"({max(it['delay'] for it in winners)})")
+        elif top in ("retry", "perm") and any(it["msg"] not in (got.get("msg") or "") for it in winners):
+            bad = "the message of an item of the winning class is missing from the combined outcome"
+        elif got_p["c"] != got["c"] or got_p.get("delay") != got.get("delay"):
+            bad = "class / delay of the combined outcome depends on the order of the items"
+        if bad:
+            ck.violate(case, bad)
+
+
 def prepare_clause(ck, r, tier):
     """The aggregation sites at prepare time (workflow/prepare.py: refSwitch cases, steps): the readiness
     of a refSwitch with several cases, and of a Workflow with several steps, must be the combination of
     the individual readiness outcomes — most severe class, longest Retry delay, every message of the
     winning class, whatever the order of cases/steps.  Individual outcomes are measured by preparing
     each case/step alone through the real prepare_workflow."""
+    import celpy
     import koreo_util as ku
+    from cluster import Cluster
     from koreo import result
     from koreo.workflow.prepare import prepare_workflow
+    from koreo.workflow.reconcile import reconcile_workflow
 
     pool = [
         {"kind": "ValueFunction", "name": "good-vf"},
@@ -371,12 +459,14 @@ def prepare_clause(ck, r, tier):
             r.shuffle(perm_idx)
             if mode == "switch":
                 singles = [ready_obs(await prepare_workflow("agg-wf", spec_for([ref]))) for ref in refs]
-                combined = ready_obs(await prepare_workflow("agg-wf", spec_for(refs)))
+                combined_res = await prepare_workflow("agg-wf", spec_for(refs))
+                combined = ready_obs(combined_res)
                 combined_p = ready_obs(await prepare_workflow("agg-wf", spec_for([refs[i] for i in perm_idx])))
             else:
                 singles = [ready_obs(await prepare_workflow("agg-wf", spec_for([ref], single=i)))
                            for i, ref in enumerate(refs)]
-                combined = ready_obs(await prepare_workflow("agg-wf", spec_for(refs)))
+                combined_res = await prepare_workflow("agg-wf", spec_for(refs))
+                combined = ready_obs(combined_res)
                 combined_p = combined if len(set(labels)) < k else \
                     ready_obs(await prepare_workflow("agg-wf", spec_for(None)))
                 # a step whose label repeats an earlier one is not prepared at all: its outcome is the
@@ -405,6 +495,24 @@ def prepare_clause(ck, r, tier):
                 bad = "readiness class/delay depends on the order of cases/steps"
             if bad:
                 ck.violate(case, bad)
+                continue
+            # the gate in reconcile_workflow hands the combined readiness on (only the location is prefixed):
+            # class, delay and every message must survive it
+            if combined["c"] != "ok" and isinstance(combined_res, tuple):
+                gate = await reconcile_workflow(api=Cluster(), workflow_key="agg-wf", owner=("ns", dict(ku.OWNER_REF)),
+                                                trigger=celpy.json_to_cel({}), workflow=combined_res[0])
+                g = ku.outcome_obs(gate.result)
+                ck.count("prepare-aggregation:gate")
+                bad = None
+                if g["c"] != combined["c"]:
+                    bad = f"a Workflow whose readiness is {combined['c']} is reconciled to {g['c']}"
+                elif combined["c"] == "retry" and g.get("delay") != combined.get("d"):
+                    bad = (f"the Workflow's readiness is Retry with delay {combined.get('d')} but reconciling it "
+                           f"reports delay {g.get('delay')}")
+                elif any(x["m"] and x["m"] not in (g.get("msg") or "") for x in winners):
+                    bad = "a message of the winning class is missing from the outcome of reconciling the not-ready Workflow"
+                if bad:
+                    ck.violate({**case, "reconciled": g}, bad)
 
     ku.run(body())
 
@@ -502,16 +610,20 @@ def run(tier: str) -> int:
         ck.leanchecker()
     try:
         workflow_clause(ck, r, tier)
-    except Exception as e:  # the workflow harness belongs to C01/C02/C09; its trouble is not a C03 verdict
-        ck.notes.append(f"workflow clause not exercised: {e!r}")
+    except Exception as e:  # the workflow harness belongs to C01/C02/C09; its own trouble is not a C03 verdict
+        ck.clause_crashed("workflow clause", e)
     try:
         foreach_clause(ck, r, tier)
     except Exception as e:
-        ck.notes.append(f"forEach time-out aggregation clause not exercised: {e!r}")
+        ck.clause_crashed("forEach time-out aggregation clause", e)
+    try:
+        foreach_items_clause(ck, r, tier)
+    except Exception as e:
+        ck.clause_crashed("forEach item aggregation clause", e)
     try:
         prepare_clause(ck, r, tier)
     except Exception as e:
-        ck.notes.append(f"prepare-time aggregation clause not exercised: {e!r}")
+        ck.clause_crashed("prepare-time aggregation clause", e)
 
     return ck.finish(
         rule="random outcome sequences (length 0-12, all five classes, None/empty/non-empty messages and "
